@@ -270,6 +270,11 @@ func (x *Exec) branch(c *Term) bool {
 		x.trace = append(x.trace, Decision{DecBranch, 0})
 		return false
 	}
+	if len(x.injective) > 0 {
+		// pending collision-freeness axioms belong to the path condition: add them before the cached
+		// model is consulted (they invalidate it)
+		x.flushInjectivity()
+	}
 	if v, ok := x.evalModel(c); ok {
 		// the model decides one outcome; only the other one needs the solver
 		x.modelHits++
@@ -361,6 +366,11 @@ func (x *Exec) checkModel(extra *Term) SatResult {
 		x.end(endUnsupported, "solver error: %v", err)
 	}
 	x.model = nil
+	if r == Unknown {
+		// the model request can fail where the plain decision succeeds (fall-back solvers whose
+		// model output cannot be read back): decide without a model
+		return x.check(extra, false)
+	}
 	if r == Sat && len(mv) == len(vars) {
 		m := make(map[int]uint64, len(vars))
 		for i, v := range vars {
